@@ -138,6 +138,48 @@ pub fn first_report_linkage(c: &mut Checker, base: &Run, rule: &'static str) {
     }
 }
 
+/// the production pairing: serde_json::Value as the source and JsonError as the error type
+pub fn first_report_linkage_json_source(c: &mut Checker, rule: &'static str) {
+    if c.env.feats[c.scn.program].error_b || !c.scn.doc.json_representable() {
+        return;
+    }
+    let mut bcfg = c.cfg(Script::AllC);
+    bcfg.source = crate::runner::Source::Json;
+    let base = c.exec(&bcfg, &|_| false);
+    if matches!(base.outcome, Outcome::Panic(_)) {
+        return;
+    }
+    let first = first_report(&base.events);
+    let mut cfg = c.cfg(Script::AllC);
+    cfg.source = crate::runner::Source::Json;
+    cfg.err = ErrParty::JsonError;
+    let r = c.exec(&cfg, &|r| matches!(r.outcome, Outcome::ErrMsg(_)));
+    let mut out = vec![];
+    match (&first, &r.outcome, &base.outcome) {
+        (None, Outcome::Ok(v), Outcome::Ok(b)) => {
+            if v != b {
+                out.push(Violation { rule, msg: format!("JsonError over serde_json succeeded with {} but the scripted run with {}", v.render(), b.render()) });
+            }
+        }
+        (Some((f, loc)), Outcome::ErrMsg(m), _) => {
+            let expect = render_with::<JsonError>(f, loc);
+            c.stats.bump("first_report_linkage_checked_json_source", 1);
+            if *m != expect {
+                out.push(Violation {
+                    rule,
+                    msg: format!(
+                        "JsonError over the serde_json source returned {m:?} but the first report of the keep-going run over the same source is {f:?} at {} which it renders as {expect:?}",
+                        path_str(loc)
+                    ),
+                });
+            }
+        }
+        (_, Outcome::Panic(_), _) => {}
+        (f, o, _) => out.push(Violation { rule, msg: format!("JsonError over serde_json ended with {} but the keep-going run's first report is {f:?}", o.render()) }),
+    }
+    c.record(out, &cfg, &r);
+}
+
 pub fn c14(c: &mut Checker) {
     if c.scn.has_dup {
         return;
@@ -145,6 +187,10 @@ pub fn c14(c: &mut Checker) {
     let base_cfg = c.cfg(Script::AllC);
     let base = c.exec(&base_cfg, &|r| !matches!(r.outcome, Outcome::Ok(_)));
     first_report_linkage(c, &base, "H-first");
+    if !c.found.is_empty() {
+        return;
+    }
+    first_report_linkage_json_source(c, "H-first");
     if !c.found.is_empty() {
         return;
     }
